@@ -4,6 +4,7 @@ use crate::report::{KnownFindings, Tier};
 use serde_json::Value;
 use std::path::PathBuf;
 
+pub mod c01;
 pub mod c08;
 pub mod c13;
 pub mod c16;
@@ -60,6 +61,7 @@ pub fn dispatch(
         };
     }
 
+    route!("C01", c01);
     route!("C08", c08);
     route!("C13", c13);
     route!("C16", c16);
